@@ -107,7 +107,7 @@ class CosimEngine(Engine):
                        'kill_mid_row', 'kill_in_step_token', 'kill_row_boundary', 'kill_in_loop_line', 'kill_in_perf_table',
                        'kill_in_banner', 'kill_lost_everything', 'error_exit', 'read_truncated_log', 'read_append_true_nonempty',
                        'read_append_false_nonempty', 'read_same_file_twice', 'short_read_source', 'buffered_source',
-                       'path_source', 'text_source', 'real_file_object_source', 'crlf_log', 'io_error_read_raised', 'differential_source_kinds', 'flatten_first_checked',
+                       'path_source', 'text_source', 'real_file_object_source', 'crlf_log', 'io_error_read_raised', 'path_of_a_file_that_does_not_exist_yet', 'differential_source_kinds', 'flatten_first_checked',
                        'flatten_last_checked', 'flatten_all_checked', 'flatten_overlap_checked',
                        'flatten_indices', 'whitespace_only_echo_line', 'perf_new', 'perf_old', 'perf_none',
                        'block_without_rows', 'screen_output_read', 'logfile_read_by_run',
@@ -288,6 +288,13 @@ class CosimEngine(Engine):
     def _gen_source(self, ctx, st):
         r = ctx.rng
         names = sorted(st['files'])
+        cfgname = st['cfg']['logfile']
+        if r.random() < 0.08 and '/' not in cfgname:
+            # a path handed over BEFORE the file exists (a monitor started early): a str that is not a file is log text,
+            # here the text of the file name, i.e. an empty log - and the same path must be read as a file once it exists
+            stem, ext = _split_name(cfgname)
+            future = cfgname if cfgname not in st['files'] else '%s-%d%s' % (stem, 1 + sum(1 for f in names if f.startswith(stem + '-')), ext)
+            return {'from': 'future', 'name': future, 'kind': 'path', 'chunks': [1], 'bufsize': 1}
         if names and r.random() < 0.75:
             src = {'from': 'file', 'name': r.choice(names)}
         else:
@@ -375,6 +382,11 @@ class CosimEngine(Engine):
         if src['from'] == 'file':
             data = st['files'].get(src['name'])
             return data
+        if src['from'] == 'future':
+            if src['name'] in st['files']:
+                return st['files'][src['name']]      # it exists by now (replayed or minimised history): an ordinary file
+            ctx.probe('path_of_a_file_that_does_not_exist_yet')
+            return src['name'].encode('utf-8')       # not a file: the string itself is the content
         surv, _, _, place, rd = self._plan(src['spec'], src.get('fault'))
         if src.get('fault'):
             self._count_kill(ctx, src['fault'], surv, rd)
@@ -423,6 +435,8 @@ class CosimEngine(Engine):
         kind = src['kind']
         st['nsynth'] += 1
         text = data.decode('utf-8')
+        if src['from'] == 'future':
+            return src['name'], (lambda: None), 'path'
         if kind in ('pathobj', 'fileobj', 'rawfile'):
             if src['from'] == 'file':
                 fn = src['name']
